@@ -59,6 +59,8 @@ func atomsFor(s *gen.Schema) []atom {
 		return []atom{{"id = %s", []interface{}{int64(1)}}, {"email = %s", []interface{}{"b@x"}}, {"score > %s", []interface{}{0.05}}, {"id IN (%s, %s)", []interface{}{int64(3), int64(4)}}}
 	case "s7":
 		return []atom{{"id = %s", []interface{}{2}}, {"ref_id = %s", []interface{}{10}}, {"idx >= %s", []interface{}{200}}, {"ref_id IS NULL", nil}}
+	case "s8":
+		return []atom{{"id = %s", []interface{}{2}}, {"email = %s", []interface{}{"a@x"}}, {"cnt >= %s", []interface{}{20}}, {"email IS NULL", nil}}
 	}
 	return nil
 }
@@ -104,6 +106,8 @@ func setsFor(s *gen.Schema) []atom {
 		return []atom{{"score = %s", []interface{}{4.5}}, {"memo = %s, email = %s", []interface{}{"mm", "z@x"}}}
 	case "s7":
 		return []atom{{"ref_id = %s", []interface{}{5}}, {"idx = idx + %s, ref_id = %s", []interface{}{1, 6}}}
+	case "s8":
+		return []atom{{"cnt = %s", []interface{}{5}}, {"email = %s, cnt = cnt + %s", []interface{}{"z@x", 1}}}
 	}
 	return nil
 }
@@ -233,7 +237,12 @@ func Statements(s *gen.Schema, thorough bool) []gen.Stmt {
 			gen.Stmt{Name: "multi-upd-3", Kind: "multi-update", SQL: "UPDATE t_s1 SET cnt = 1 WHERE id = 1; UPDATE t_s1 SET cnt = 2 WHERE id = 2; UPDATE t_s1 SET cnt = cnt + 1 WHERE id = 1"},
 			gen.Stmt{Name: "multi-del-2", Kind: "multi-delete", SQL: "DELETE FROM t_s1 WHERE id = 1; DELETE FROM t_s1 WHERE cnt >= 30"},
 			gen.Stmt{Name: "multi-del-2-bound", Kind: "multi-delete", SQL: "DELETE FROM t_s1 WHERE id = ?; DELETE FROM t_s1 WHERE id = ?", Args: []interface{}{int64(1), int64(2)}},
-			gen.Stmt{Name: "multi-del-3", Kind: "multi-delete", SQL: "DELETE FROM t_s1 WHERE id = 1; DELETE FROM t_s1 WHERE id = 2; DELETE FROM t_s1 WHERE id = 404"})
+			gen.Stmt{Name: "multi-del-3", Kind: "multi-delete", SQL: "DELETE FROM t_s1 WHERE id = 1; DELETE FROM t_s1 WHERE id = 2; DELETE FROM t_s1 WHERE id = 404"},
+			// a statement without WHERE among statements with one, in every position
+			gen.Stmt{Name: "multi-del-nowhere-first", Kind: "multi-delete", SQL: "DELETE FROM t_s1; DELETE FROM t_s1 WHERE id = 2"},
+			gen.Stmt{Name: "multi-del-nowhere-last", Kind: "multi-delete", SQL: "DELETE FROM t_s1 WHERE id = 2; DELETE FROM t_s1"},
+			gen.Stmt{Name: "multi-del-nowhere-middle", Kind: "multi-delete", SQL: "DELETE FROM t_s1 WHERE id = ?; DELETE FROM t_s1; DELETE FROM t_s1 WHERE id = ?", Args: []interface{}{int64(1), int64(3)}},
+			gen.Stmt{Name: "multi-upd-nowhere-first", Kind: "multi-update", SQL: "UPDATE t_s1 SET cnt = 0; UPDATE t_s1 SET cnt = 5 WHERE id = 2"})
 	}
 	// VALUES lists mixing literal, parameter, NULL, DEFAULT over 1..3 rows
 	if s.ID == "s1" {
@@ -301,9 +310,6 @@ func Enumerate(thorough bool, yield func(idx int, c Case)) int {
 	idx := 0
 	for _, s := range gen.Schemas {
 		init := []int{0, 1, 2}
-		if s.ID == "s6" {
-			init = []int{0, 1}
-		}
 		for _, st := range Statements(s, thorough) {
 			for _, oc := range []bool{true, false} {
 				yield(idx, Case{Schema: s.ID, Stmt: st, OnlyCare: oc, Init: init})
